@@ -1,10 +1,106 @@
 /- driver ops for property C09 (model side of the correspondence) -/
 import Rsa.Core.Wire
+import Rsa.Core.Boot
 
-open Lean Rsa.Wire
+open Lean Rsa.Wire Rsa.Boot
 
 namespace Rsa.Drv.C09
 
-def handle : Handler := fun _op _j => none
+def asLbl (j : Json) : R Lbl :=
+  match j with
+  | .str s => pure (Lbl.str s)
+  | _ => do let i ← asInt j; pure (Lbl.int i)
+
+def ofLbl : Lbl → Json
+  | .int i => ofInt i
+  | .str s => Json.str s
+
+def asDesc (j : Json) : R (Desc Lbl) := do
+  let kvs ← asArr j
+  kvs.mapM (fun kv => do
+    match (← asArr kv) with
+    | [k, v] => do pure ((← asStr k), (← asList asLbl v))
+    | _ => throw "descriptor entry must be [key, values]")
+
+def ofDesc (d : Desc Lbl) : Json :=
+  Json.arr (d.map (fun kv => Json.arr #[Json.str kv.1, ofList ofLbl kv.2])).toArray
+
+def asStack (j : Json) : R (Stack Lbl Rat) := do
+  let n ← fld j "n_cond" >>= asNat
+  let vecs ← fld j "vecs" >>= asList (asList (asOpt asRat))
+  let rd ← fld j "rdm_desc" >>= asDesc
+  let pd ← fld j "pat_desc" >>= asDesc
+  pure { nCond := n, vecs := vecs, rdmDesc := rd, patDesc := pd }
+
+def ofStack (s : Stack Lbl Rat) : Json :=
+  obj [("n_cond", ofNat s.nCond),
+       ("vecs", ofList (ofList (ofOpt ofRat)) s.vecs),
+       ("rdm_desc", ofDesc s.rdmDesc),
+       ("pat_desc", ofDesc s.patDesc)]
+
+def specJson (d : Desc Lbl) (k : String) : Json :=
+  match d.lookup k with
+  | none => Json.null
+  | some desc => let sp := drawSpec Lbl.le desc; Json.arr #[ofNat sp.1, ofNat sp.2]
+
+/-- one bootstrap draw: `mode` = both | rdm | pattern, draws as recorded from `randint` -/
+def boot (j : Json) : R Json := do
+  let s ← asStack j
+  let mode ← fld j "mode" >>= asStr
+  let rdmBy ← asStr (fldD j "rdm_by" (Json.str "index"))
+  let patBy ← asStr (fldD j "pat_by" (Json.str "index"))
+  let dr ← asList asNat (fldD j "draws_r" (Json.arr #[]))
+  let dp ← asList asNat (fldD j "draws_p" (Json.arr #[]))
+  match mode with
+  | "both" =>
+    match bootstrapSample Lbl.le s rdmBy patBy dr dp with
+    | none => pure (obj [("exc", Json.str "KeyError")])
+    | some (r, ri, pi) =>
+      pure (obj [("stack", ofStack r), ("rdm_idx", ofList ofLbl ri), ("pat_idx", ofList ofLbl pi),
+                 ("spec_r", specJson s.rdmDesc rdmBy), ("spec_p", specJson s.patDesc patBy)])
+  | "rdm" =>
+    match bootstrapSampleRdm Lbl.le s rdmBy dr with
+    | none => pure (obj [("exc", Json.str "KeyError")])
+    | some (r, ri) =>
+      pure (obj [("stack", ofStack r), ("rdm_idx", ofList ofLbl ri), ("pat_idx", Json.null),
+                 ("spec_r", specJson s.rdmDesc rdmBy), ("spec_p", Json.null)])
+  | "pattern" =>
+    match bootstrapSamplePattern Lbl.le s patBy dp with
+    | none => pure (obj [("exc", Json.str "KeyError")])
+    | some (r, pi) =>
+      pure (obj [("stack", ofStack r), ("rdm_idx", Json.null), ("pat_idx", ofList ofLbl pi),
+                 ("spec_r", Json.null), ("spec_p", specJson s.patDesc patBy)])
+  | _ => throw s!"unknown mode {mode}"
+
+/-- `subsample_pattern(by, value)` on any stack (resampling a model prediction) -/
+def resample (j : Json) : R Json := do
+  let s ← asStack j
+  let patBy ← asStr (fldD j "pat_by" (Json.str "index"))
+  let value ← fld j "value" >>= asList asLbl
+  match s.subsamplePattern patBy value with
+  | none => pure (obj [("exc", Json.str "KeyError")])
+  | some r => pure (obj [("stack", ofStack r)])
+
+/-- `subsample(by, value)` on any stack -/
+def resampleRdm (j : Json) : R Json := do
+  let s ← asStack j
+  let rdmBy ← asStr (fldD j "rdm_by" (Json.str "index"))
+  let value ← fld j "value" >>= asList asLbl
+  match s.subsample rdmBy value with
+  | none => pure (obj [("exc", Json.str "KeyError")])
+  | some r => pure (obj [("stack", ofStack r)])
+
+/-- `np.unique` of one descriptor -/
+def unique (j : Json) : R Json := do
+  let d ← fld j "desc" >>= asList asLbl
+  pure (ofList ofLbl (uniq Lbl.le d))
+
+def handle : Handler := fun op j =>
+  match op with
+  | "c09.boot" => some (boot j)
+  | "c09.resample" => some (resample j)
+  | "c09.resample_rdm" => some (resampleRdm j)
+  | "c09.unique" => some (unique j)
+  | _ => none
 
 end Rsa.Drv.C09
